@@ -126,6 +126,9 @@ def c09(tier, seed):
             label="Gen_Normalize/map-orders", min_cases=10000),
         GEN("Gen_Merge", dict(UA=u, UB=u, PolSet="<-Pols", FosSet="<-FosNone"), "merge",
             replay_args=["--reprs", "map,cfg", "--repeat", k], label="Gen_Merge/map-orders", min_cases=1000),
+        # settings that reference each other: create + Unpack of the whole config, repeated; the per-call cache and
+        # the active set are shared between the fields, which the runtime visits in a fresh random order every time
+        varexp_gen(tier, label="Gen_VarExp/unpack-orders", extra=["--repeat", "6" if q else "16", "--every", "2" if q else "1"]),
     ]
 
 
@@ -212,6 +215,8 @@ def c03(tier, seed):
         MC("Gen_Convert", dict(Groups='={{"DurationNoOverflowCheck"}}'), invariants=["NoWrapKnown"], expect_violation=True,
            label="MC_Convert/refute-DurationNoOverflowCheck"),
         GEN("Gen_Convert", {}, "conv", label="Gen_Convert/boundaries", min_cases=3000),
+        MC("Gen_ConvText", dict(Groups="={}"), invariants=["NoThird"], label="MC_ConvText/text-syntaxes"),
+        GEN("Gen_ConvText", {}, "convtext", gen_family="conv", label="Gen_ConvText/texts-bools-strings", min_cases=300),
         TRACE("Trace_Convert", "conv", n=20000 if q else 500000, label="Trace_Convert/random-bit-patterns",
               trace_file="trace_conv.ndjson"),
     ]
@@ -235,7 +240,10 @@ def c13(tier, seed):
 
 
 def c14(tier, seed):
-    return reify_stages(["ErrNamesSetting"], [("DefaultErrPathNotNested", ["ErrNamesSetting"]), ("MapElemUnaddressable", ["ErrNamesSetting"])])
+    return reify_stages(["ErrNamesSetting"], [("DefaultErrPathNotNested", ["ErrNamesSetting"]), ("MapElemUnaddressable", ["ErrNamesSetting"])]) + [
+        MC("Gen_Faults", dict(Groups="={}"), invariants=["SitesExist"], label="MC_Faults/sites"),
+        GEN("Gen_Faults", {}, "faults", label="Gen_Faults/types-x-sites-x-fault-kinds", min_cases=20000),
+    ]
 
 
 def c06(tier, seed):
@@ -280,6 +288,17 @@ def c07(tier, seed):
         MC("Gen_Parse", dict(MaxLen=3, Alphabet="<-AlphaFull", Docs="<-DocsQuick", Groups='={{"EofPanics"}}'), invariants=["NoPanicKnown"],
            expect_violation=True, label="MC_Parse/refute-EofPanics"),
         parse_gen(tier, label="Gen_Parse/all-short-strings"),
+        # every (name, idx) address - negative, huge, beyond the end - read and written in every reachable store state;
+        # a panic anywhere (also while observing afterwards) is a violation of C07
+        GEN("Gen_Store", dict(STORE_CORE, MaxOps=2 if q else 3), "store", replay_args=["--components", "obs,sweep,count,kind,at"],
+            label="Gen_Store/core", only_devs=[], min_cases=2000),
+        GEN("Gen_Store", dict(STORE_CHURN, MaxOps=5 if q else 6), "store", replay_args=["--components", "obs,sweep,count,kind,at"],
+            label="Gen_Store/list-churn", only_devs=[], min_cases=5000),
+        TRACE("Trace_Store", "store", consts=dict(MaxNodes=1000, MaxArr=1000, Components="<-CompsC12"),
+              drive_args=["--components", "obs,sweep,count,kind,at", "--steps", "25"], n=60 if q else 1000, only_devs=None,
+              label="Trace_Store/sessions"),
+        # every target type x validator x shape of setting: Unpack returns
+        GEN("Gen_Targets", {}, "targets", label="Gen_Targets/types-x-validators-x-settings", min_cases=10000),
         GO("robust", "fuzz", args=["--mutations", "3000" if q else "40000", "--splice-len", "6" if q else "7"],
            label="robust/mutation+enumeration", min_cases=100000),
     ]
